@@ -351,7 +351,7 @@ def run(tier, seed):
             break
         mism += len(f)
         for j in f[:2]:
-            rep.violation("lru:model-mismatch", {"broken": "correspondence impl<->Model/Lru.v l_run (or functools<->f_run)", "case": sh[j][:3000]}, no_input=not fails_n)
+            rep.violation("lru:model-mismatch", {"broken": "correspondence impl<->Model/Lru.v l_run (or functools<->f_run)", "case": sh[j][:3000]}, no_input=not rep.has_failing_input())
     rep.cov["traces_validated_against_impl"] = len(texts)
     rep.notes["model_mismatches"] = mism
     if not proofs_ok:
